@@ -29,20 +29,19 @@ from vlib.harness import ControlPipe, ScriptedServer
 
 
 class LateOnionTor(onionref.OnionTor):
-    def __init__(self, add_onion=None, setconf=None, version="0.4.8.10"):
-        # same fields as OnionTor.__init__, but no connection yet
-        self._add_onion = add_onion
-        self._setconf = setconf
-        self.add_onion_lines = []
-        self.del_onion_lines = []
-        self.setconf_lines = []
-        self.setevents_lines = []
-        self.fs_hostnames = {}
-        self._config = None
-        self.server = ScriptedServer(self._handler, version=version)
-        self.server.info.update({"config/names": list(onionref.CONFIG_NAMES), "config/defaults": [],
-                                 "onions/current": "", "onions/detached": ""})
-        self.pipe = ControlPipe(self.server)
+    def __init__(self, *args, **kw):
+        # OnionTor.__init__ with the one difference that nothing is connected yet: its bootstrapped_pipe() is
+        # replaced, for the duration of the constructor, by one that only builds the server and the pipe
+        def unconnected(handler=None, **k):
+            srv = ScriptedServer(handler, **{x: k.pop(x) for x in list(k) if x in
+                                             ("version", "events", "signals", "protocolinfo")})
+            return ControlPipe(srv, **k), srv
+        saved = onionref.bootstrapped_pipe
+        onionref.bootstrapped_pipe = unconnected
+        try:
+            onionref.OnionTor.__init__(self, *args, **kw)
+        finally:
+            onionref.bootstrapped_pipe = saved
         self.proto = None
         self.attached = False
 
